@@ -12,11 +12,11 @@ P = {}
 P['C02'] = dict(
  technique=TECH + " over ghost ledgers with running totals",
  text="Unbounded proofs, function by function, over ghost ledgers with running totals: coin arithmetic is exact, every ledger mutator of the balance, fee, stake, network-delegation, reward and proposal-fund stores changes exactly one record by exactly the amount and fails without effect, every call site proves the amount non-nil and non-negative (C02.sign), and the handlers under contract (send, sendpool, fee handling, staking, network delegation, governance fund/withdraw/distribute, reward withdrawal, ETH mint/burn/refund, ONS payments, validator fee shares) conserve or bound the per-currency total as the statement demands. Clauses the code violates are listed as known findings; five were repaired (negative / truncated amounts).",
- note="Typed get/set layer of each store assumed (state keys are built by string formatting); independence of stores with distinct prefixes assumed; option invariants from genesis assumed; the cross-block sum over ALL stores is not composed into one theorem: the statement is decided per transaction kind and per block hook, each against its own ledgers. Block-reward minting bound: see C13.")
+ note="Typed get/set layer of each store assumed (state keys are built by string formatting); independence of stores with distinct prefixes assumed; option invariants from genesis assumed; the cross-block sum over ALL stores is not composed into one theorem: the statement is decided per transaction kind and per block hook, each against its own ledgers. Block-reward minting bound: see C13. The check also verifies the clauses of other tags its argument rests on (C17's OLVM gas accounting: what the sender pays equals what pool and recipient get).")
 P['C03'] = dict(
  technique=TECH + ": per-handler postcondition 'only the signer's records decrease'",
  text="Unbounded proof, for every handler and block hook under contract, that the only ledger records that can decrease are those keyed by the message's signer (resp. the fee payer, the stake account of the signing validator, the guilty validator in the allegation tracker), stated as a quantified frame over the ghost ledgers of the balance, stake, network-delegation, reward and proposal-fund stores. One violation is a known finding (a stranger withdraws the matured rewards of a removed validator).",
- note="Same trusted base as C02; 'total holdings of an account' is decided ledger by ledger, not as one sum; maturity moves between an account's own ledgers are covered where C11/C12 prove them.")
+ note="Same trusted base as C02; 'total holdings of an account' is decided ledger by ledger, not as one sum; maturity moves between an account's own ledgers are covered where C11/C12 prove them. The check also verifies all of C04's clauses (signature verification, key handlers, Validate-before-Process), on which 'signed' rests.")
 P['C04'] = dict(
  technique=TECH + " (loop invariant on ValidateBasic, per-handler Validate postconditions, history tokens on the ABCI wrappers)",
  text="Unbounded proof that ValidateBasic accepts only when every required signer address, in order, has a signature by the key with that address verifying over the given bytes; that each handler's Validate (transfer, staking, network delegation, governance, rewards, evidence, ONS, ETH, OLVM) calls it with the Signers() of the same decoded payload over the serialisation of (type, payload, fee, memo); that the key handlers really verify (ed25519/secp256k1 library contracts) and derive the address from the key; and that CheckTx and DeliverTx reach ProcessCheck/ProcessDeliver/ProcessFee only after that handler's Validate returned true for the same transaction (DeliverTx did not: repaired). OLVM payload malleability (access list, type, signer field unauthenticated) is a known finding.",
@@ -24,10 +24,10 @@ P['C04'] = dict(
 P['C06'] = dict(
  technique=TECH + " of the ABCI wrappers and block-end runners + call-graph frame condition on every handler",
  text="Unbounded proof that txDeliverer/txChecker and the block-end runners (expire/finalize proposals) open a tx session before any handler code runs, that every path ends with the session committed or discarded, and that a non-zero result code leaves everything below the session exactly as on entry; the handler frame (no action.Tx implementation can reach a session/commit/tree-write primitive) is decided on the static call graph of all implementations; State.Set/Delete are proved session-isolated (C09); the EVM per-transaction bookkeeping is finalised exactly once per delivered transaction. One defect repaired (runner left the session open on an undecodable queued transaction).",
- note="Assumed: app.context.Action returns a context over the given state (its aiming is proved under C07); in-memory side effects of failed transactions other than chain state (store option caches, EVM journal) are covered only by the clauses named; doEthTransitions' `continue` after a failed transition leaves its session to the next Begin/Discard (observed, not claimed).")
+ note="Assumed: app.context.Action returns a context over the given state (its aiming is proved under C07); in-memory side effects of failed transactions other than chain state (store option caches, EVM journal) are covered only by the clauses named; doEthTransitions' `continue` after a failed transition leaves its session to the next Begin/Discard (observed, not claimed). The check also verifies the C09 clauses of package storage (BeginTxSession/Set/Delete/Commit/DiscardTxSession), on which the session argument rests.")
 P['C07'] = dict(
  technique="contract-based deductive verification in a type-state mode: `aimcheck` contracts on every consensus hook, VCs from go/ssa with callees abstracted by call-graph MOD/USE sets of the stores' state-pointer fields, discharged by z3/cvc5; call-graph `nowrite` frame clauses for CheckTx",
- text="Unbounded proof, for every consensus entry point of package app (InitChain, BeginBlock, DeliverTx, EndBlock, Commit closures) and every helper that receives the context, starting from a heap in which every shared store's state pointer is ARBITRARY (any earlier CheckTx may have re-aimed it at the check state): at each call, the receiver and every store, master store or context argument whose state pointer the callee can read is aimed at app.Context.deliver; Action() and ValidatorCtx() are proved to hand out only stores aimed at the requested state. Plus a call-graph frame for CheckTx: it never writes the context's pointers nor the validator queue, reward calculator cache or EVM per-block bookkeeping. Sites that fail are reported: BeginBlock read the fee option and scanned proposals through stores left aimed by the last CheckTx (both repaired / listed, see known findings), and a CheckTx of a finalize transaction can switch the in-memory option caches of shared stores (known finding).",
+ text="Unbounded proof, for every consensus entry point of package app (InitChain, BeginBlock, DeliverTx, EndBlock, Commit closures) and every helper that receives the context, starting from a heap in which every shared store's state pointer is ARBITRARY (any earlier CheckTx may have re-aimed it at the check state): at each call, the receiver and every store, master store or context argument whose state pointer the callee can read is aimed at app.Context.deliver; Action() and ValidatorCtx() are proved to hand out only stores aimed at the requested state. Plus a call-graph frame for CheckTx: it never writes the context's pointers nor the validator queue, reward calculator cache or EVM per-block bookkeeping. Two sites failed on the pinned tree and were repaired after a two-replica replay with a real CheckTx showed diverging results (BeginBlock read the fee option, and scanned proposals for internal transactions, through stores left aimed by the last CheckTx); a CheckTx of a finalize transaction switching the in-memory option caches of shared stores is refuted by the frame and listed as a known finding (three clauses, replays).",
  note="Callees are abstracted by the set of aim fields they can write (object-insensitive; static calls, interface calls by class hierarchy over module types, function values resolved by signature over address-taken module functions); store methods are trusted to use only their own state pointer and the stores handed to them; the internal-transaction queue is exempt by design; other mode fields CheckTx leaves behind (store prefixes, governance.Store.height, JobStore.chain) and intra-call concurrency of the two ABCI connections are not covered; the conclusion 'consensus results are identical' rests on this channel analysis, it is not a two-run relational proof.")
 P['C09'] = dict(
  technique=TECH + " of the storage layers against an abstract three-layer map",
